@@ -185,6 +185,7 @@ func InstallExt(env *sbx.Env) [][2]string {
 //	clean-full-exit: the clean side emits the complete transformed output and then exits 1
 //	smudge-partial:  the smudge side emits only the first 100 bytes, exits 3
 //	smudge-nooutput: the smudge side emits nothing, exits 1
+//	smudge-identity: the smudge side copies its input (does not invert the clean transform), exits 0
 func InstallFaultyExt(env *sbx.Env, kind string) [][2]string {
 	p := filepath.Join(env.Root, "verif-ext-faulty")
 	cl := "exec tr '\\000-\\377' '\\001-\\377\\000'"
@@ -200,6 +201,8 @@ func InstallFaultyExt(env *sbx.Env, kind string) [][2]string {
 		sm = "tr '\\001-\\377\\000' '\\000-\\377' | { head -c 100; cat >/dev/null; }; exit 3"
 	case "smudge-nooutput":
 		sm = "cat >/dev/null; exit 1"
+	case "smudge-identity":
+		sm = "exec cat"
 	}
 	script := "#!/bin/sh\nif [ \"$1\" = clean ]; then " + cl + "; else " + sm + "; fi\n"
 	os.WriteFile(p, []byte(script), 0o755)
